@@ -912,6 +912,20 @@ func stressMain(args []string) {
 						mu.Lock()
 						leader = best
 						mu.Unlock()
+						if *faults && rng.Intn(3) == 0 {
+							// a delayed duplicate of the leader's Truncate request reaches a follower of this term
+							// later on (its status is FOLLOWER by then: the request has to be refused)
+							dn := names[rng.Intn(len(names))]
+							if dn != best {
+								if h, ok := heads[dn]; ok {
+									hh, delay := &proto.EntryId{Term: h.Term, Offset: h.Offset}, time.Duration(5+rng.Intn(60))*time.Millisecond
+									go func() {
+										time.Sleep(delay)
+										_ = sim.SendTruncate(dn, t, hh)
+									}()
+								}
+							}
+						}
 						if leftOut != "" && rng.Intn(2) == 0 {
 							lo, delay := leftOut, time.Duration(rng.Intn(40))*time.Millisecond
 							go func() {
